@@ -8,6 +8,7 @@ From SU.Spec Require Import QuantSpec.
 From SU.Proofs Require Import QuantHystProofs.
 From Flocq Require Import Core IEEE754.BinarySingleNaN.
 From SU.Proofs Require Import QuantExtraProofs.
+From SU.Proofs Require Import QuantKillers.
 Open Scope R_scope.
 
 (** if the previously reported note is still allowed and the input is inside its window,
@@ -139,6 +140,36 @@ Theorem C09_ex_monotone :
 Proof. exact ex_monotone. Qed.
 Close Scope Z_scope.
 
+(** a scale edit never touches the remembered conversion *)
+Open Scope Z_scope.
+Theorem C09_edit_keeps_cache : forall q o,
+  match o with QConvert _ => True | _ => q_cached (quant_step q o) = q_cached q end.
+Proof. exact KQ_edit_keeps_cache. Qed.
+Close Scope Z_scope.
+
+(** hence the note is kept across any scale edit that leaves it allowed ("scale edits between conversions") *)
+Open Scope Z_scope.
+Theorem C09_keep_across_edit : forall q o v,
+  (forall x, o <> QConvert x) ->
+  let q' := quant_step q o in
+  note_allowed (q_allowed q') (c_note (q_cached q)) = true ->
+  0 <= c_note (q_cached q) ->
+  in_window (q_cached q) (clamp_vin v) = true ->
+  c_note (snd (convert q' v)) = c_note (q_cached q) /\
+  c_stair (snd (convert q' v)) = c_stair (q_cached q).
+Proof. exact KQ_keep_across_edit. Qed.
+Close Scope Z_scope.
+
+(** non-vacuity: three edits, a fresh quantizer would answer differently *)
+Open Scope Z_scope.
+Theorem C09_ex_keep_across_edit :
+  convert_seq (qrun [QConvert v_0_5; QAllow [3]]) [v_0_496] = [6] /\
+  convert_seq (qrun [QConvert v_0_5; QForbid [5; 7]]) [v_0_496] = [6] /\
+  convert_seq (qrun [QConvert v_0_5; QForbid [0; 1; 2; 3; 4; 5; 7; 8; 9; 10; 11; 6]]) [v_0_496] = [6] /\
+  convert_seq (qrun []) [v_0_496] = [5].
+Proof. exact KQ_ex_keep_across_edit. Qed.
+Close Scope Z_scope.
+
 Print Assumptions C09_keep.
 Print Assumptions C09_memoryless.
 Print Assumptions C09_cached_ok.
@@ -154,3 +185,6 @@ Print Assumptions C09_ex_keeps.
 Print Assumptions C09_ex_not_keeps.
 Print Assumptions C09_ex_noise_one_change.
 Print Assumptions C09_ex_monotone.
+Print Assumptions C09_edit_keeps_cache.
+Print Assumptions C09_keep_across_edit.
+Print Assumptions C09_ex_keep_across_edit.
